@@ -13,15 +13,15 @@ except Exception:
 CLAIMS = {
  "C01": ("Kernel obligations behind exactly-once, in-order delivery: the replay window (one-step induction over every state), packet-number truncation/expansion over the whole RFC window, SendBuffer::poll_transmit range/size arithmetic (both branches, full width, via MIR->SMT), final-size discipline of Recv::ingest, one iteration of the Assembler::defragment trimming loop (frontier monotone, nothing kept below it, bytes keep their stream position), the switch to unordered reads remembering the consumed prefix, and Chunks::next reporting end of stream only when every byte up to the final size was read. Each holds for ALL inputs within the stated bounds. StreamsState::retransmit never cancels a FIN that is still owed when a data frame is lost, and after a Retry every early stream - a FIN-only one included - is scheduled again in full (MIR).",
          "Partial: retransmission scheduling, loss detection, multi-chunk reassembly, unordered reads and everything needing a Connection are outside the claim (DESIGN §4 C01)."),
- "C03": ("Absence of panic / overflow / out-of-bounds in decoders and peer-driven arithmetic kernels for all inputs in the enumerated structure classes, plus the stated post-conditions (error class, state unchanged on error).",
+ "C03": ("Absence of panic / overflow / out-of-bounds in decoders and peer-driven arithmetic kernels for all inputs in the enumerated structure classes, plus the stated post-conditions (error class, state unchanged on error). RttEstimator::update cannot underflow a Duration for any peer-reported ack delay; PacketSpace::sent keeps the count of un-ackable packets consistent (bounded tracking, no underflow on the late ACK); the datagram receive queue is bounded in elements as well as bytes; header protection is only removed from packets long enough to hold the sample.",
          "Partial: state-dependent panics inside Connection/Endpoint, CidState, payloads longer than the stated lengths are outside the claim (DESIGN §4 C03)."),
- "C04": ("The replay filter accepts every packet number at most once in any history (one-step induction from an arbitrary window state); reset-token / constant-time comparison equals byte equality for all inputs; every authenticated packet (Retry / Version Negotiation included) is counted by Connection::on_packet_authenticated; the peer's transport parameters are accepted exactly when the connection IDs they echo match the ones seen on the wire (Connection::handle_peer_params, all CID bytes symbolic); which keys authenticate a packet (current / previous / next key phase, 0-RTT; packet_crypto::decrypt_packet_body), that keys rotate exactly on a packet authenticated under the next keys (Connection::decrypt_packet), and what one rotation does (Connection::update_keys). The middle of Connection::handle_packet (slice from an arbitrary state): a packet reaches process_decrypted_packet only after decrypt_packet ran, never when the datagram is flagged as a stateless reset, and a numbered packet only after the duplicate filter of its own space was asked about exactly its number and answered `new`; the server's first Initial is recorded in the filter as well.",
+ "C04": ("The replay filter accepts every packet number at most once in any history (one-step induction from an arbitrary window state); reset-token / constant-time comparison equals byte equality for all inputs; every authenticated packet (Retry / Version Negotiation included) is counted by Connection::on_packet_authenticated; the peer's transport parameters are accepted exactly when the connection IDs they echo match the ones seen on the wire (Connection::handle_peer_params, all CID bytes symbolic); which keys authenticate a packet (current / previous / next key phase, 0-RTT; packet_crypto::decrypt_packet_body), that keys rotate exactly on a packet authenticated under the next keys (Connection::decrypt_packet), and what one rotation does (Connection::update_keys). The middle of Connection::handle_packet (slice from an arbitrary state): a packet reaches process_decrypted_packet only after decrypt_packet ran, never when the datagram is flagged as a stateless reset, and a numbered packet only after the duplicate filter of its own space was asked about exactly its number and answered `new`; the server's first Initial is recorded in the filter as well. packet_crypto::decrypt_packet_body returns a connection-fatal error or an accepted packet number only after the AEAD accepted the packet; PartialDecode::decrypt_header applies the header key only to packets of at least pn_offset + 4 + sample_size bytes.",
          "Narrow: the order decrypt -> dedup -> process inside handle_packet, key-phase selection, Retry/VN acceptance and the first-Initial path are Connection code and NOT covered (DESIGN §4 C04, §5)."),
  "C05": ("Step cases of 'never exceed peer limits': write budget = min(limit, max_data - offset, source), connection write_limit, monotone MAX_DATA / MAX_STREAM_DATA / MAX_STREAMS under stale and reordered updates, for all 62-bit values. One iteration of the chunk loop of Send::write keeps `remaining budget + bytes accepted` constant, so vectored writes cannot overshoot the credit (slice).",
          "Partial: the wire-level sum over all streams, Streams::open (hash map) in E1, 0-RTT remembered limits are outside (DESIGN §4 C05)."),
- "C06": ("Receiver-side limit enforcement kernels: Recv::ingest/reset verdict table (FLOW_CONTROL_ERROR / FINAL_SIZE_ERROR iff ...), validate_receive_id (STREAM_LIMIT_ERROR / STREAM_STATE_ERROR iff ...), credit return arithmetic (add_read_credits, set_receive_window, max_stream_data) for all 62-bit values; StreamsState::received / received_reset hand Recv::{ingest,reset} the connection's data_recvd and OUR local_max_data and charge exactly the new bytes (MIR->SMT).",
+ "C06": ("Receiver-side limit enforcement kernels: Recv::ingest/reset verdict table (FLOW_CONTROL_ERROR / FINAL_SIZE_ERROR iff ...), validate_receive_id (STREAM_LIMIT_ERROR / STREAM_STATE_ERROR iff ...), credit return arithmetic (add_read_credits, set_receive_window, max_stream_data) for all 62-bit values; StreamsState::received / received_reset hand Recv::{ingest,reset} the connection's data_recvd and OUR local_max_data and charge exactly the new bytes (MIR->SMT). DatagramState::received appends only while both the byte and the element bound hold and drops oldest-first only when needed (one iteration of each loop, arbitrary queue); Recv::stop credits nothing for a stream that was already reset; a refused read leaves the stream in the map (Chunks::new).",
          "Partial: CRYPTO buffer limit, TooManyChunks, connection-wide buffered-bytes bound need Connection / the stream map (DESIGN §4 C06)."),
- "C07": ("The anti-amplification predicate (not blocked implies validated or total_sent + bytes <= 3 * total_recvd, all counters below 2^62); its call sites in Connection::poll_transmit as slices from an arbitrary state (a new datagram is started only after the predicate, asked about segment_size * num_datagrams + 1 bytes, said no; an MTU probe is built for a validated path only); the first Initial credits exactly its datagram; datagrams from other addresses are not credited; stateless resets are smaller than what provoked them; an Initial in a datagram below 1200 bytes gets no response and no state.",
+ "C07": ("The anti-amplification predicate (not blocked implies validated or total_sent + bytes <= 3 * total_recvd, all counters below 2^62); its call sites in Connection::poll_transmit as slices from an arbitrary state (a new datagram is started only after the predicate, asked about segment_size * num_datagrams + 1 bytes, said no; an MTU probe is built for a validated path only); the first Initial credits exactly its datagram; datagrams from other addresses are not credited; stateless resets are smaller than what provoked them; an Initial in a datagram below 1200 bytes gets no response and no state. Connection::migrate challenges the old and the new address with independent tokens.",
          "Partial: the accounting of total_sent at the end of poll_transmit and the path-challenge / off-path response datagrams are not covered (DESIGN §4 C07)."),
  "C08": ("Idle-timeout negotiation (min of non-zero values, commutative) and the timer table (next_timeout is the minimum armed instant, expiry predicate, stop disarms only its timer) for all instants/values; Connection::close_inner (all timers stopped before the close timer is armed, a second close changes nothing), Connection::kill (state Drained, exactly one Drained event), the endpoint's reset-token bookkeeping on ResetToken events, and the idle timeout being negotiated against the received max_idle_timeout - decided on the MIR of the real Connection / Endpoint methods; the tail of handle_packet (a connection that becomes drained stops its close timer), one iteration of handle_timeout for every timer (no arm re-enables idle-timer resets), reset_idle_timeout / set_close_timer (what the timers are armed with), Endpoint::{accept,refuse,ignore} release the attempt's route and buffer. A close is announced even with a full congestion window (poll_transmit slice); a connection closed by its first packet gets its drain timer (handle_first_packet); a configured idle timeout of 0 ms means disabled from the start (Connection::new); Endpoint::handle_event(Drained / RetireConnectionId / NeedIdentifiers) acts on exactly the reporting connection and the reported CID.",
          "Narrow: lifecycle state transitions, exactly-once reporting, drain timing and endpoint forgetting are Connection/Endpoint code (DESIGN §4 C08)."),
@@ -29,13 +29,13 @@ CLAIMS = {
          "Narrow: routing tables (hash maps), CidState, generators are outside (DESIGN §4 C09)."),
  "C10": ("Encode/decode round-trips and decoder totality for varints (all values), packet numbers (whole window), connection IDs (all lengths), frame-type/ECN/stream-id packing, transport parameters and per-frame codecs within stated payload bounds.",
          "Bounds: payloads <= 4-8 bytes, structure (frame type, CID lengths, buffer length) enumerated concretely; HashedConnectionIdGenerator outside (DESIGN §4 C10)."),
- "C11": ("Send-half and Recv-half operations compared against the QUIC stream state table from every abstract state (Ready / DataSent{acked?} / ResetSent x stopped?; Recv{size?} / ResetRecvd x stopped?). On the MIR of StreamsState: received_stop_sending queues Stopped exactly once per stopped stream with the peer's code; reset_acked frees the sending half exactly when it is in ResetSent; stream_freed / received_reset / Chunks::next as listed in DESIGN section 10. RecvStream::received_reset reports a closed stream for a stopped or vanished stream and hands out the reset code only together with the stream's removal.",
+ "C11": ("Send-half and Recv-half operations compared against the QUIC stream state table from every abstract state (Ready / DataSent{acked?} / ResetSent x stopped?; Recv{size?} / ResetRecvd x stopped?). On the MIR of StreamsState: received_stop_sending queues Stopped exactly once per stopped stream with the peer's code; reset_acked frees the sending half exactly when it is in ResetSent; stream_freed / received_reset / Chunks::next as listed in DESIGN section 10. RecvStream::received_reset reports a closed stream for a stopped or vanished stream and hands out the reset code only together with the stream's removal. SendStream::reset is refused exactly for a stream that is gone or already in ResetSent; Chunks::new removes the stream's state only on the path that returns Ok.",
          "Partial: application events, stream-count release and Chunks need the stream hash maps (DESIGN §4 C11)."),
  "C12": ("Built-in controllers never report a window below two datagrams after any single event from any state satisfying the invariant; in-flight accounting insert/remove is an exact inverse; ACKs of skipped packet numbers are rejected; Connection::on_packet_acked removes exactly the acknowledged packet once; following a Retry discards the old Initial space before a new one is installed; poll_transmit starts an ack-eliciting non-probe datagram only below the congestion window (slices). One iteration of the loss scan in detect_lost_packets declares a packet lost exactly per RFC 9002 6.1 (sent >= loss_delay ago, or >= packet_threshold before the largest acknowledged) and records it exactly once.",
          "Partial: loss detection (detect_lost_packets' loops), discard paths other than Retry and pluggable controllers are outside (DESIGN §4 C12)."),
  "C13": ("MTU discovery as an inductive invariant: from EVERY state satisfying the representation invariant, one step of poll_transmit / on_acked / on_probe_lost / peer-limit reception / black-hole detection keeps probes within peer and configured limits, raises the estimate only on an acked probe of exactly that size, never drops it below min(min_mtu, peer limit), keeps at most one probe in flight and makes the search terminate; the peer's max_udp_payload_size reaches MTU discovery saturated to u16 (set_peer_params, migrate); DATAGRAM frames are written and admitted only within the current MTU (e2_dgram_write, e2_datagrams_max_size); a packet is padded to the segment size only within the datagram's own budget (loss probes stay at 1200 bytes); a detected black hole purges every queued datagram that no longer fits (slices of poll_transmit / detect_lost_packets). The CONNECTION_CLOSE encoders never exceed the room they are given (every error code, reason length, room) and poll_transmit gives them what is left AFTER the ACK frame (slice).",
          "Partial: PacketBuilder's own size arithmetic and GSO batching in poll_transmit are outside (DESIGN §4 C13)."),
- "C14": ("Token validation kernels: for a genuine token presented from a symbolic address at a symbolic time, 'validated' implies address (and port for Retry) equality, lifetime and (NEW_TOKEN) log acceptance, the reuse log being consulted with the token's own nonce / issue time; constant-time token comparison = equality; the client accepts the server's transport parameters only if initial_src_cid, original_dst_cid and retry_src_cid echo the connection IDs actually used (RFC 9000 7.3, all 20 CID bytes symbolic). The client-side TokenMemoryCache hands out a stored token only by removing it from its queue (State::take on the MIR). One filter of the server-side BloomTokenLog refuses a fingerprint exactly when it is present and carries every fingerprint over when the hash set is converted into a bloom filter (MIR dumped with the `bloom` feature).",
+ "C14": ("Token validation kernels: for a genuine token presented from a symbolic address at a symbolic time, 'validated' implies address (and port for Retry) equality, lifetime and (NEW_TOKEN) log acceptance, the reuse log being consulted with the token's own nonce / issue time; constant-time token comparison = equality; the client accepts the server's transport parameters only if initial_src_cid, original_dst_cid and retry_src_cid echo the connection IDs actually used (RFC 9000 7.3, all 20 CID bytes symbolic). The client-side TokenMemoryCache hands out a stored token only by removing it from its queue (State::take on the MIR). One filter of the server-side BloomTokenLog refuses a fingerprint exactly when it is present and carries every fingerprint over when the hash set is converted into a bloom filter (MIR dumped with the `bloom` feature). The BloomTokenLog period index is exact for lifetimes that are not whole seconds (half-second resolution below 256 s).",
          "Assumes AEAD authenticity (stub accepts exactly what it sealed); BloomTokenLog, TokenMemoryCache, Retry integrity tag, CID echo check are outside (DESIGN §4 C14)."),
  "C15": ("Five kernels of migration safety: Connection::migrate leaves the new path unvalidated with a pending challenge and the validation timer armed, and replaces the path to fall back to only by a path that was not itself awaiting validation (every connection state, MIR->SMT); a datagram from an address other than the established one is ignored (nothing credited, counted or processed) unless this is a server whose configuration permits migration - decided for every outcome of the address comparison and of remote_may_migrate; the migration trigger at the end of process_payload fires exactly for a non-probing packet from another address that has the highest packet number (slice from an arbitrary state); the PATH_RESPONSE arm validates the path exactly when the outstanding token comes back from the path's own address (slice); and a path created for a migrated peer starts unvalidated with zeroed amplification counters and nothing in flight, whatever the previous path's state. A sixth: when the PathValidation timer fires, the path the connection ends up on has no challenge left outstanding.",
          "Narrow: the PathValidation timeout handler restoring the previous path and PATH_CHALLENGE emission in populate_packet are Connection code with loops and are outside the claim."),
